@@ -257,6 +257,7 @@ def any_node(t, pred):
 # ----------------------------------------------------------------------------------------------
 # known findings
 # ----------------------------------------------------------------------------------------------
+REPLAY_RUN = False
 PREDICATES = {}
 def predicate(fn):
     PREDICATES[fn.__name__] = fn
@@ -303,7 +304,8 @@ class Verdict:
         if extra:
             ev.update(extra)
         ev["coverage"]["known_findings_hit"] = {k: v["n"] for k, v in self.known_hits.items()}
-        json.dump(ev, open(os.path.join(EVID, self.prop + ".json"), "w"), indent=1)
+        if not REPLAY_RUN:      # a --replay run examines one recorded input: it does not describe what the check covers
+            json.dump(ev, open(os.path.join(EVID, self.prop + ".json"), "w"), indent=1)
         return 1 if self.violations else 0
 
 # ---- predicates of known-findings.json ---------------------------------------------------------
